@@ -49,9 +49,9 @@ func judgeAlt(c *engine.Ctx, fn, call string, r ref.AltKeyResult, min, max int64
 
 func init() {
 	engine.Register(&engine.Check{
-		ID:        "C12",
-		Title:     "Altitude-key conversion never loses altitude and is exact where it can be",
-		Technique: "exhaustive choice-tree enumeration (E1) of (zoom, zoom, base exponent, index, base offset) in both directions against exact big-integer interval arithmetic; dense band for the mutual-consistency law",
+		ID:          "C12",
+		Title:       "Altitude-key conversion never loses altitude and is exact where it can be",
+		Technique:   "exhaustive choice-tree enumeration (E1) of (zoom, zoom, base exponent, index, base offset) in both directions against exact big-integer interval arithmetic; dense band for the mutual-consistency law",
 		Assumptions: []string{"index and offset values outside the alphabets (and the dense band) are not covered", "reference: ref.ZToAltKey / ref.AltKeyToZ (big.Int shifts)"},
 		Phases: func(tier string) []engine.Phase {
 			zs := zooms(tier)
